@@ -160,7 +160,8 @@ def move_transfer_rule(R):
             continue
         ov = prm[0]["vid"]
         def on_other(x):
-            return any(isinstance(y, dict) and y.get("k") == "var" and y.get("vid") == ov for y in subexprs(x))
+            # directly, or through a local that was derived from it (`T* src = other.inlineData();`)
+            return any(isinstance(y, dict) and y.get("k") == "var" and y.get("vid") == ov for y in subexprs(fn.expand_expr(x)))
         zeroed = [(p, e) for p, e in fn.events() if e.get("k") == "bin" and e.get("op") == "=" and const_val(e.get("r")) == 0 and on_other(e.get("l"))]
         if not zeroed:
             continue
